@@ -26,6 +26,18 @@ pub fn stress(path: &str) {
     ctx.set_value("s".into(), Value::String("xy".into())).unwrap();
     ctx.set_value("t".into(), Value::Tuple(vec![Value::Int(1), Value::Int(2)])).unwrap();
     ctx.set_function("f".into(), Function::new(|a| Ok(a.clone()))).unwrap();
+    // a user function that takes a while (busy wait), so that other threads read the shared context meanwhile
+    ctx.set_function(
+        "slow".into(),
+        Function::new(|a| {
+            let t0 = std::time::Instant::now();
+            while t0.elapsed() < std::time::Duration::from_micros(40) {
+                std::hint::spin_loop();
+            }
+            Ok(a.clone())
+        }),
+    )
+    .unwrap();
     let ctx = Arc::new(ctx);
     let mut trees = vec![];
     for line in text.lines() {
@@ -70,5 +82,42 @@ pub fn stress(path: &str) {
             nbad += 1;
         }
     }
-    println!("THREADS\ttrees={}\tthreads={}\trounds={}\tevaluations={}\tmismatches={}", trees.len(), threads, rounds, trees.len() * threads * rounds, nbad);
+    // second phase: every thread walks the trees in an order of its own, so DIFFERENT evaluations overlap
+    // (one thread inside a user function while another reads a variable, deep and shallow trees together)
+    let rounds2 = 6;
+    let barrier = Arc::new(std::sync::Barrier::new(threads));
+    let mut handles = vec![];
+    for t in 0..threads {
+        let (trees, ctx, sequential, barrier) = (trees.clone(), ctx.clone(), sequential.clone(), barrier.clone());
+        handles.push(std::thread::spawn(move || {
+            let mut bad = vec![];
+            let n = trees.len();
+            barrier.wait();
+            for r in 0..rounds2 {
+                for j in 0..n {
+                    let i = (j * (2 * t + 1) + t * n / threads + r * 7) % n;
+                    let got = crate::canon::result_text(&trees[i].1.eval_with_context(&*ctx));
+                    if got != sequential[i] {
+                        bad.push(format!("{}\t{}\t{}", trees[i].0, sequential[i], got));
+                    }
+                }
+            }
+            bad
+        }));
+    }
+    for h in handles {
+        for b in h.join().unwrap().into_iter().take(3) {
+            println!("MISMATCH\t{}", b);
+            nbad += 1;
+        }
+    }
+    println!(
+        "THREADS\ttrees={}\tthreads={}\trounds={}+{}\tevaluations={}\tmismatches={}",
+        trees.len(),
+        threads,
+        rounds,
+        rounds2,
+        trees.len() * threads * (rounds + rounds2),
+        nbad
+    );
 }
